@@ -3,7 +3,7 @@
    The model (C20/Model.v) is the code of supla_esp_dns_client.c with the repair
    docs/fixes/C20_short_name_stale_state.diff (`step true`); `step false` is the code without it.
    Histories are arbitrary lists of events
-     Resolve name | ConnectCb | DisconnectCb | ReconnectCb err | Recv bytes | SentRes r | Adv dt | Dump
+     Resolve name | ConnectCb | DisconnectCb | ReconnectCb err | Recv bytes | SentRes r | ConnRes r | Adv dt | Dump
    in any order; the only side condition is that a received segment is shorter than 65536 bytes
    (the length parameter of the receive callback is an unsigned short). *)
 From Coq Require Import List ZArith.
@@ -85,6 +85,8 @@ Print Assumptions C20_callbacks_le_requests.
    W 1 = SERVER_COUNT*timeout + (SERVER_COUNT-1)*retry after the request, extended by one retry delay per
    network callback delivered (a callback can only re-arm the 0.2 s retry timer).
    Timers fire when due (the semantics of `Adv`): this is the fairness assumption, built into the event.
+   `post` may contain any `ConnRes r` / `SentRes r` events: the statement holds for every sequence of results of
+   espconn_connect and espconn_sent (the timeout timer is armed before espconn_connect is called, its result is ignored).
    Hence, as soon as the advanced time exceeds that bound the callback has been made -- exactly once. *)
 Theorem C20_exactly_once_bounded : forall pre name post,
   Forall ev_ok pre -> Forall ev_ok post -> no_resolve post ->
@@ -116,11 +118,11 @@ Theorem C20_old_code_refuted :
   In Fault (snd (run_from false init witness_fault)) /\
   run witness_fault = [CB None] /\
   snd (run_from false init witness_stale) =
-    [Disconnect 0; Connect 53 0 [8;8;8;8];
+    [Disconnect 0; Connect 53 0 0 [8;8;8;8];
      Sent 0 0 [0;22; 1;0; 1;0; 0;1; 0;0; 0;0; 0;0; 4;97;98;99;100;0; 0;1;0;1];
      Disconnect 0; CB (Some [10;20;30;40]); CB (Some [10;20;30;40])] /\
   run witness_stale =
-    [Disconnect 0; Connect 53 0 [8;8;8;8];
+    [Disconnect 0; Connect 53 0 0 [8;8;8;8];
      Sent 0 0 [0;22; 1;0; 1;0; 0;1; 0;0; 0;0; 0;0; 4;97;98;99;100;0; 0;1;0;1];
      Disconnect 0; CB (Some [10;20;30;40]); CB None].
 Proof. exact C20_old_code_refuted_thm. Qed.
@@ -131,10 +133,10 @@ Print Assumptions C20_old_code_refuted.
 Example C20_nonvacuous :
   valid_reply 24 good_reply [10;20;30;40] /\
   run [Resolve [97;98;99;100]; Adv 21000000] =
-    [Disconnect 0; Connect 53 0 [8;8;8;8];
-     Disconnect 5000000; Disconnect 5200000; Connect 53 5200000 [1;1;1;1];
-     Disconnect 10200000; Disconnect 10400000; Connect 53 10400000 [8;8;4;4];
-     Disconnect 15400000; Disconnect 15600000; Connect 53 15600000 [1;0;0;1];
+    [Disconnect 0; Connect 53 0 0 [8;8;8;8];
+     Disconnect 5000000; Disconnect 5200000; Connect 53 5200000 0 [1;1;1;1];
+     Disconnect 10200000; Disconnect 10400000; Connect 53 10400000 0 [8;8;4;4];
+     Disconnect 15400000; Disconnect 15600000; Connect 53 15600000 0 [1;0;0;1];
      Disconnect 20600000; CB None] /\
   W 1 = 20600000 /\ 2 * SERVER_COUNT - 2 = 6.
 Proof. split; [exact good_reply_valid|]. split; [exact schedule_example|]. vm_compute. split; reflexivity. Qed.
